@@ -1284,11 +1284,12 @@ end Reg
 
 /-- `Q` (a property of the caller's scopes) survives the operations leaves may perform.
 `ins = true`: also inserts (needed when the program runs directly in the caller's top scope). -/
-structure Stable (Q : Reg → Prop) (A : Act → Bool) (ins : Bool) : Prop where
+structure Stable (Q : Reg → Prop) (A : Act → Bool) (ins : Bool) (L : Bool) : Prop where
   setv : ∀ ph k v b, A (.set ph k v) = true → Q b → Q (b.setv k v)
   remove : ∀ ph k b, A (.rem ph k) = true → Q b → Q (b.remove k)
-  incr : ∀ b b', b.incr = some b' → Q b → Q b'
-  insert : ins = true → ∀ k v b, Q b → Q (b.insert k v)
+  incr : L = true → ∀ b b', b.incr = some b' → Q b → Q b'
+  insert : ins = true → ∀ ph k v b, A (.ins ph k v) = true → Q b → Q (b.insert k v)
+  ctr0 : ins = true → L = true → ∀ b, Q b → Q (b.insert 0 0)
 
 /-- Depth is kept and `Q` of the outermost `n` scopes is kept, as long as at least `lo` scopes are open. -/
 def RegFrame (Q : Reg → Prop) (n lo : Nat) (r r' : Reg) : Prop :=
@@ -1300,8 +1301,9 @@ theorem regFrame_trans {Q : Reg → Prop} {n lo : Nat} {a b c : Reg} (h1 : RegFr
     (h2 : RegFrame Q n lo b c) : RegFrame Q n lo a c :=
   ⟨h2.1.trans h1.1, fun hl hq => h2.2 (by rw [h1.1]; exact hl) (h1.2 hl hq)⟩
 
-theorem regFrame_insert {Q : Reg → Prop} {A : Act → Bool} {ins : Bool} (hst : Stable Q A ins) {n lo : Nat}
-    (hn : n ≤ lo) (hlo : ins = false → n < lo) (r : Reg) (k v : Nat) : RegFrame Q n lo r (r.insert k v) := by
+theorem regFrame_insert {Q : Reg → Prop} {ins : Bool} {n lo : Nat}
+    (hn : n ≤ lo) (hlo : ins = false → n < lo) (r : Reg) (k v : Nat)
+    (hst : ins = true → ∀ b, Q b → Q (b.insert k v)) : RegFrame Q n lo r (r.insert k v) := by
   refine ⟨Reg.length_insert _ _ _, fun hl hq => ?_⟩
   by_cases h : n < r.length
   · rw [Reg.below_insert_lt _ _ _ _ h]; exact hq
@@ -1312,15 +1314,15 @@ theorem regFrame_insert {Q : Reg → Prop} {A : Act → Bool} {ins : Bool} (hst 
       have h1 : n = (r.insert k v).length := by rw [Reg.length_insert]; exact hnl
       rw [h1, Reg.below_self]
       rw [hnl, Reg.below_self] at hq
-      exact hst.insert hins k v r hq
+      exact hst hins r hq
 
-theorem regFrame_apply {Q : Reg → Prop} {A : Act → Bool} {ins : Bool} (hst : Stable Q A ins) {n lo : Nat}
+theorem regFrame_apply {Q : Reg → Prop} {A : Act → Bool} {ins L : Bool} (hst : Stable Q A ins L) {n lo : Nat}
     (hn : n ≤ lo) (hlo : ins = false → n < lo) (ph : Phase) (a : Act) (ha : A a = true) (r : Reg) :
     RegFrame Q n lo r (a.apply ph r) := by
   cases a with
   | ins p k v =>
     simp only [Act.apply]; split
-    · exact regFrame_insert hst hn hlo r k v
+    · exact regFrame_insert hn hlo r k v (fun hi b hq => hst.insert hi p k v b ha hq)
     · exact regFrame_refl _ _ _ _
   | set p k v =>
     simp only [Act.apply]; split
@@ -1338,7 +1340,7 @@ theorem regFrame_apply {Q : Reg → Prop} {A : Act → Bool} {ins : Bool} (hst :
     · exact regFrame_refl _ _ _ _
   | need k => exact regFrame_refl _ _ _ _
 
-theorem regFrame_applyActs {Q : Reg → Prop} {A : Act → Bool} {ins : Bool} (hst : Stable Q A ins) {n lo : Nat}
+theorem regFrame_applyActs {Q : Reg → Prop} {A : Act → Bool} {ins L : Bool} (hst : Stable Q A ins L) {n lo : Nat}
     (hn : n ≤ lo) (hlo : ins = false → n < lo) (ph : Phase) (acts : List Act) (ha : acts.all A = true) (r : Reg) :
     RegFrame Q n lo r (applyActs ph acts r) := by
   unfold applyActs
@@ -1349,7 +1351,7 @@ theorem regFrame_applyActs {Q : Reg → Prop} {A : Act → Bool} {ins : Bool} (h
     simp only [List.foldl_cons]
     exact regFrame_trans (regFrame_apply hst hn hlo ph a ha.1 r) (ih ha.2 _)
 
-theorem regFrame_effOf {Q : Reg → Prop} {A : Act → Bool} {ins : Bool} (hst : Stable Q A ins) {n lo : Nat}
+theorem regFrame_effOf {Q : Reg → Prop} {A : Act → Bool} {ins L : Bool} (hst : Stable Q A ins L) {n lo : Nat}
     (hn : n ≤ lo) (hlo : ins = false → n < lo) (ph : Phase) (acts : List Act) (ha : acts.all A = true)
     (r r' : Reg) (h : effOf ph acts r = some r') : RegFrame Q n lo r r' := by
   cases ph <;> simp only [effOf, leafEff, needEff] at h
@@ -1361,9 +1363,9 @@ theorem regFrame_effOf {Q : Reg → Prop} {A : Act → Bool} {ins : Bool} (hst :
   all_goals (injection h with h; subst h; exact regFrame_refl _ _ _ _)
 
 /-- The frame invariant of every program whose leaves only perform actions allowed by `A`. -/
-theorem inv_frame (s : Script) {Q : Reg → Prop} {A : Act → Bool} {ins : Bool} (hst : Stable Q A ins)
+theorem inv_frame (s : Script) {Q : Reg → Prop} {A : Act → Bool} {ins L : Bool} (hst : Stable Q A ins L)
     {n lo : Nat} (hn : n ≤ lo) (hlo : ins = false → n < lo) :
-    Inv s (Op.sat A true) (fun _ => true) (fun σ σ' => RegFrame Q n lo σ.reg σ'.reg) where
+    Inv s (Op.sat A L) (fun _ => true) (fun σ σ' => RegFrame Q n lo σ.reg σ'.reg) where
   refl σ := regFrame_refl _ _ _ _
   trans _ _ _ h1 h2 := regFrame_trans h1 h2
   op o ho σ := by
@@ -1374,7 +1376,9 @@ theorem inv_frame (s : Script) {Q : Reg → Prop} {A : Act → Bool} {ins : Bool
       rcases step_cases s ev (effOf ev.1 acts) σ with h | ⟨r, hr, h⟩ <;> rw [h]
       · exact regFrame_refl _ _ _ _
       · exact regFrame_effOf hst hn hlo _ acts ho.2 _ _ hr
-    | counter0 => simp only [opRun, newCounter]; exact regFrame_insert hst hn hlo _ 0 0
+    | counter0 =>
+      simp only [opRun, newCounter]
+      exact regFrame_insert hn hlo _ 0 0 (fun hi b hq => hst.ctr0 hi (by simpa [Op.sat] using ho) b hq)
     | bump =>
       simp only [opRun, bump]
       split
@@ -1382,7 +1386,7 @@ theorem inv_frame (s : Script) {Q : Reg → Prop} {A : Act → Bool} {ins : Bool
         refine ⟨Reg.length_incr _ _ hr, fun hl hq => ?_⟩
         rcases Reg.below_incr _ _ n (by omega) hr with h | h
         · rw [h]; exact hq
-        · exact hst.incr _ _ h hq
+        · exact hst.incr (by simpa [Op.sat] using ho) _ _ h hq
       · exact regFrame_refl _ _ _ _
   cond c _ σ := by rw [condEval_reg]; exact regFrame_refl _ _ _ _
   scope σ σ2 h := by
@@ -1405,7 +1409,7 @@ def Act.keeps (k : Nat) (a : Act) : Bool := !(a.isRem && a.key == k)
 /-- Neither `set_value` nor `remove` of `k`. -/
 def Act.spares (k : Nat) (a : Act) : Bool := !(a.isWrite && a.key == k)
 
-theorem stable_present (k : Nat) : Stable (fun b => (b.get? k).isSome = true) (Act.keeps k) true where
+theorem stable_present (k : Nat) (L : Bool) : Stable (fun b => (b.get? k).isSome = true) (Act.keeps k) true L where
   setv ph k' v b _ hq := by
     by_cases h : k' = k
     · subst h; rw [Reg.get_setv_same]; simp [hq]
@@ -1413,17 +1417,21 @@ theorem stable_present (k : Nat) : Stable (fun b => (b.get? k).isSome = true) (A
   remove ph k' b ha hq := by
     have h : k' ≠ k := by simpa [Act.keeps, Act.isRem, Act.key] using ha
     rw [Reg.get_remove_ne _ _ _ h]; exact hq
-  incr b b' hi hq := by
+  incr _ b b' hi hq := by
     rw [Reg.get_incr _ _ k hi]
     by_cases h : k = 0
     · subst h; simp only [if_true]; cases hg : Reg.get? b 0 <;> simp_all
     · simp [h, hq]
-  insert _ k' v b hq := by
+  insert _ _ k' v b _ hq := by
     by_cases hb : b = []
     · subst hb; exact hq
     · rw [Reg.get_insert _ _ _ _ hb]; by_cases h : k' = k <;> simp [h, hq]
+  ctr0 _ _ b hq := by
+    by_cases hb : b = []
+    · subst hb; exact hq
+    · rw [Reg.get_insert _ _ _ _ hb]; by_cases h : 0 = k <;> simp [h, hq]
 
-theorem stable_absent (k : Nat) : Stable (fun b => b.get? k = none) (fun _ => true) false where
+theorem stable_absent (k : Nat) (L : Bool) : Stable (fun b => b.get? k = none) (fun _ => true) false L where
   setv ph k' v b _ hq := by
     by_cases h : k' = k
     · subst h; rw [Reg.setv_of_get_none _ _ _ hq]; exact hq
@@ -1432,22 +1440,24 @@ theorem stable_absent (k : Nat) : Stable (fun b => b.get? k = none) (fun _ => tr
     by_cases h : k' = k
     · subst h; rw [Reg.remove_of_get_none _ _ hq]; exact hq
     · rw [Reg.get_remove_ne _ _ _ h]; exact hq
-  incr b b' hi hq := by
+  incr _ b b' hi hq := by
     rw [Reg.get_incr _ _ k hi]
     by_cases h : k = 0
     · subst h; simp [hq]
     · simp [h, hq]
   insert h := by cases h
+  ctr0 h := by cases h
 
-theorem stable_value (k v : Nat) (hk : k ≠ 0) : Stable (fun b => b.get? k = some v) (Act.spares k) false where
+theorem stable_value (k v : Nat) (hk : k ≠ 0) (L : Bool) : Stable (fun b => b.get? k = some v) (Act.spares k) false L where
   setv ph k' v' b ha hq := by
     have h : k' ≠ k := by simpa [Act.spares, Act.isWrite, Act.key] using ha
     rw [Reg.get_setv_ne _ _ _ _ h]; exact hq
   remove ph k' b ha hq := by
     have h : k' ≠ k := by simpa [Act.spares, Act.isWrite, Act.key] using ha
     rw [Reg.get_remove_ne _ _ _ h]; exact hq
-  incr b b' hi hq := by rw [Reg.get_incr _ _ k hi]; simp [hk, hq]
+  incr _ b b' hi hq := by rw [Reg.get_incr _ _ k hi]; simp [hk, hq]
   insert h := by cases h
+  ctr0 h := by cases h
 
 /-! ### Scopes -/
 
@@ -1463,12 +1473,12 @@ theorem scopeBody_all (A : Act → Bool) (C : Cond → Bool) (L : Bool) (b : Com
 
 /-- A property of the caller's scopes that is stable under set/remove/increment survives a scope,
 whatever the body inserts and however it ends. -/
-theorem scope_frame (s : Script) (f : Nat) {Q : Reg → Prop} {A : Act → Bool} (hst : Stable Q A false)
-    (b : Comp) (hb : b.sat A (fun _ => true) true = true) (σ : St) (hq : Q σ.reg) :
+theorem scope_frame (s : Script) (f : Nat) {Q : Reg → Prop} {A : Act → Bool} {L : Bool} (hst : Stable Q A false L)
+    (b : Comp) (hb : b.sat A (fun _ => true) L = true) (σ : St) (hq : Q σ.reg) :
     Q (exec s f (.scope b) σ).1.reg := by
   rw [exec_scope]
   have h := srun_pres (inv_frame s hst (n := σ.reg.length) (lo := σ.reg.length + 1) (by omega) (fun _ => by omega))
-    f (scopeBody b) (scopeBody_all A _ true b hb) (push σ)
+    f (scopeBody b) (scopeBody_all A _ L b hb) (push σ)
   obtain ⟨h1, h2⟩ := h
   simp only [push, List.length_cons] at h1 h2
   have hne : (srun s f (scopeBody b) (push σ)).1.reg ≠ [] := by
@@ -1484,15 +1494,24 @@ theorem scope_frame (s : Script) (f : Nat) {Q : Reg → Prop} {A : Act → Bool}
   exact this
 
 /-- A property stable under every leaf operation (inserts included) survives a whole run. -/
-theorem run_frame (s : Script) (f : Nat) {Q : Reg → Prop} {A : Act → Bool} (hst : Stable Q A true)
-    (c : Comp) (hc : c.sat A (fun _ => true) true = true) (σ : St) (hq : Q σ.reg) :
-    Q (run s f c σ).1.reg := by
-  rw [run_eq]
+theorem srun_frame_top (s : Script) (f : Nat) {Q : Reg → Prop} {A : Act → Bool} {L : Bool} (hst : Stable Q A true L)
+    (p : Stmt) (hp : p.all (Op.sat A L) (fun _ => true) = true) (σ : St) (hq : Q σ.reg) :
+    Q (srun s f p σ).1.reg := by
   have h := srun_pres (inv_frame s hst (n := σ.reg.length) (lo := σ.reg.length) (by omega) (fun h => by cases h))
-    f (prog c) (prog_all A _ true c hc) σ
+    f p hp σ
   obtain ⟨h1, h2⟩ := h
   have := h2 (by omega) (by rw [Reg.below_self]; exact hq)
   rwa [← h1, Reg.below_self] at this
+
+theorem run_frame (s : Script) (f : Nat) {Q : Reg → Prop} {A : Act → Bool} {L : Bool} (hst : Stable Q A true L)
+    (c : Comp) (hc : c.sat A (fun _ => true) L = true) (σ : St) (hq : Q σ.reg) :
+    Q (run s f c σ).1.reg := by
+  rw [run_eq]; exact srun_frame_top s f hst (prog c) (prog_all A _ L c hc) σ hq
+
+theorem exec_frame (s : Script) (f : Nat) {Q : Reg → Prop} {A : Act → Bool} {L : Bool} (hst : Stable Q A true L)
+    (c : Comp) (hc : c.sat A (fun _ => true) L = true) (σ : St) (hq : Q σ.reg) :
+    Q (exec s f c σ).1.reg := by
+  rw [exec_eq]; exact srun_frame_top s f hst (execProg c) (execProg_all A _ L c hc) σ hq
 
 
 /-! ### The loop counter is not touched by loop-free bodies whose leaves leave key 0 alone -/
@@ -2368,6 +2387,700 @@ theorem exec_counter_same' (s : Script) (f : Nat) (b : Comp)
     have := ctr_sound s f (execProg b) false false σ (execProg_all _ _ true b hb)
       (execProg_ctr b false (fun x => by rw [hl] at x; cases x)) hne (fun hh => by cases hh)
     exact get0_of_profile _ _ (this.full (execProg_flat b hl))
+
+
+/-! ### No fault fires between two points of a trace (traces newest first) -/
+
+/-- No scripted fault fires at any event of `tr` recorded after `base`. -/
+def Clean (s : Script) (base tr : List Ev) : Prop :=
+  ∀ newer e old, tr = newer ++ e :: old → base <:+ old → s.faulty e (old.count e) = false
+
+theorem suffix_cases {a : List Ev} {e : Ev} {b : List Ev} (h : a <:+ e :: b) : a = e :: b ∨ a <:+ b :=
+  List.suffix_cons_iff.mp h
+
+theorem clean_refl (s : Script) (t : List Ev) : Clean s t t := by
+  intro newer e old h hb
+  have h1 := hb.length_le
+  have h2 := congrArg List.length h
+  simp at h2; omega
+
+theorem clean_cons {s : Script} {base old : List Ev} {e : Ev} (h : Clean s base old)
+    (hf : s.faulty e (old.count e) = false) : Clean s base (e :: old) := by
+  intro newer e' old' heq hb
+  cases newer with
+  | nil => simp only [List.nil_append, List.cons.injEq] at heq; obtain ⟨rfl, rfl⟩ := heq; exact hf
+  | cons x newer =>
+    simp only [List.cons_append, List.cons.injEq] at heq
+    exact h newer e' old' heq.2 hb
+
+theorem clean_trans {s : Script} {a b c : List Ev} (h1 : Clean s a b) (h2 : Clean s b c) (hbc : b <:+ c) :
+    Clean s a c := by
+  intro newer e old heq ha
+  have hs : e :: old <:+ c := ⟨newer, heq.symm⟩
+  rcases List.suffix_or_suffix_of_suffix hbc hs with h | h
+  · rcases suffix_cases h with h | h
+    · exact h1 [] e old (by simpa using h) ha
+    · exact h2 newer e old heq h
+  · obtain ⟨m, hm⟩ := h
+    exact h1 m e old hm.symm ha
+
+theorem clean_suffix {s : Script} {base t t' : List Ev} (h : Clean s base t) (ht : t' <:+ t) : Clean s base t' := by
+  intro newer e old heq hb
+  obtain ⟨m, hm⟩ := ht
+  exact h (m ++ newer) e old (by rw [← hm, heq, List.append_assoc]) hb
+
+/-- Two "first fault" positions of one trace coincide. -/
+theorem first_fault_unique {s : Script} {base T o1 o2 : List Ev} {e1 e2 : Ev}
+    (h1 : e1 :: o1 <:+ T) (h2 : e2 :: o2 <:+ T) (b1 : base <:+ o1) (b2 : base <:+ o2)
+    (c1 : Clean s base o1) (c2 : Clean s base o2)
+    (f1 : s.faulty e1 (o1.count e1) = true) (f2 : s.faulty e2 (o2.count e2) = true) : e1 = e2 ∧ o1 = o2 := by
+  rcases List.suffix_or_suffix_of_suffix h1 h2 with h | h
+  · rcases suffix_cases h with h | h
+    · injection h with a b; exact ⟨a, b⟩
+    · obtain ⟨m, hm⟩ := h
+      have := c2 m e1 o1 hm.symm b1
+      rw [this] at f1; cases f1
+  · rcases suffix_cases h with h | h
+    · injection h with a b; exact ⟨a.symm, b.symm⟩
+    · obtain ⟨m, hm⟩ := h
+      have := c1 m e2 o2 hm.symm b2
+      rw [this] at f2; cases f2
+
+/-! ### Single-run invariant: everything before the returned error was fault-free -/
+
+def Res.errEv : Res → Option Ev
+  | .err ph id => some (ph, id)
+  | _ => none
+def CRes.errEv : CRes → Option Ev
+  | .err ph id => some (ph, id)
+  | _ => none
+
+/-- The run from `σ` ended with trace `tr`; if it returned the error `e` then `e` is the newest event
+and no fault fired before it, otherwise no fault fired at all. -/
+def Quiet (s : Script) (σ : St) (tr : List Ev) : Option Ev → Prop
+  | none => σ.tr <:+ tr ∧ Clean s σ.tr tr
+  | some e => ∃ old, tr = e :: old ∧ σ.tr <:+ old ∧ Clean s σ.tr old
+
+theorem quiet_here (s : Script) (σ : St) : Quiet s σ σ.tr none := ⟨List.suffix_refl _, clean_refl s _⟩
+
+/-- Composition: first part ended without error, second part starts where it stopped. -/
+theorem quiet_trans {s : Script} {σ σ1 : St} {tr : List Ev} {oe : Option Ev}
+    (h1 : Quiet s σ σ1.tr none) (h2 : Quiet s σ1 tr oe) : Quiet s σ tr oe := by
+  cases oe with
+  | none => exact ⟨h1.1.trans h2.1, clean_trans h1.2 h2.2 h2.1⟩
+  | some e =>
+    obtain ⟨old, a, b, c⟩ := h2
+    exact ⟨old, a, h1.1.trans b, clean_trans h1.2 c b⟩
+
+theorem step_quiet (s : Script) (ev : Ev) (eff : Reg → Option Reg) (σ : St) :
+    Quiet s σ (step s ev eff σ).1.tr (step s ev eff σ).2.errEv := by
+  simp only [step]
+  split
+  · exact ⟨σ.tr, rfl, List.suffix_refl _, clean_refl s _⟩
+  · rename_i hf
+    have hf : s.faulty ev (σ.tr.count ev) = false := by simpa using hf
+    split
+    · exact ⟨List.suffix_cons _ _, clean_cons (clean_refl s _) hf⟩
+    · exact ⟨σ.tr, rfl, List.suffix_refl _, clean_refl s _⟩
+
+theorem evalLeaf_quiet (s : Script) (id : Nat) (σ : St) :
+    Quiet s σ (evalLeaf s id σ).1.tr (evalLeaf s id σ).2.errEv := by
+  simp only [evalLeaf]
+  split
+  · exact ⟨σ.tr, rfl, List.suffix_refl _, clean_refl s _⟩
+  · rename_i hf
+    have hf : s.faulty (Phase.ceval, id) (σ.tr.count (Phase.ceval, id)) = false := by simpa using hf
+    exact ⟨List.suffix_cons _ _, clean_cons (clean_refl s _) hf⟩
+
+mutual
+  theorem condEval_quiet (s : Script) : ∀ (c : Cond) (σ : St),
+      Quiet s σ (condEval s c σ).1.tr (condEval s c σ).2.errEv
+    | .leaf id, σ => by simp only [condEval]; exact evalLeaf_quiet s id σ
+    | .all cs, σ => by simp only [condEval]; exact evalAll_quiet s cs σ
+    | .any cs, σ => by simp only [condEval]; exact evalAny_quiet s cs σ
+    | .not c, σ => by
+      simp only [condEval]
+      have := condEval_quiet s c σ
+      cases hx : condEval s c σ with
+      | mk σ1 v => rw [hx] at this; cases v <;> exact this
+  theorem evalAll_quiet (s : Script) : ∀ (cs : Conds) (σ : St),
+      Quiet s σ (evalAll s cs σ).1.tr (evalAll s cs σ).2.errEv
+    | .nil, σ => quiet_here s σ
+    | .cons c cs, σ => by
+      simp only [evalAll]
+      have h1 := condEval_quiet s c σ
+      cases hx : condEval s c σ with
+      | mk σ1 v =>
+        rw [hx] at h1
+        cases v with
+        | err ph id => exact h1
+        | val b =>
+          simp only
+          have h2 := evalAll_quiet s cs σ1
+          cases hy : evalAll s cs σ1 with
+          | mk σ2 v2 =>
+            rw [hy] at h2
+            cases v2 <;> exact quiet_trans h1 h2
+  theorem evalAny_quiet (s : Script) : ∀ (cs : Conds) (σ : St),
+      Quiet s σ (evalAny s cs σ).1.tr (evalAny s cs σ).2.errEv
+    | .nil, σ => quiet_here s σ
+    | .cons c cs, σ => by
+      simp only [evalAny]
+      have h1 := condEval_quiet s c σ
+      cases hx : condEval s c σ with
+      | mk σ1 v =>
+        rw [hx] at h1
+        cases v with
+        | err ph id => exact h1
+        | val b =>
+          simp only
+          have h2 := evalAny_quiet s cs σ1
+          cases hy : evalAny s cs σ1 with
+          | mk σ2 v2 =>
+            rw [hy] at h2
+            cases v2 <;> exact quiet_trans h1 h2
+end
+
+theorem andThen_quiet {s : Script} {σ : St} {r : St × Res} {k : St → St × Res}
+    (h1 : Quiet s σ r.1.tr r.2.errEv) (h2 : ∀ σ1, Quiet s σ1 (k σ1).1.tr (k σ1).2.errEv) :
+    Quiet s σ (andThen r k).1.tr (andThen r k).2.errEv := by
+  obtain ⟨σ1, x⟩ := r
+  cases x <;> simp only [andThen]
+  · exact quiet_trans h1 (h2 σ1)
+  all_goals exact h1
+
+theorem opRun_quiet (s : Script) (o : Op) (σ : St) : Quiet s σ (opRun s o σ).1.tr (opRun s o σ).2.errEv := by
+  cases o with
+  | prim ev acts => exact step_quiet s ev _ σ
+  | counter0 => exact quiet_here s σ
+  | bump => simp only [opRun, bump]; split <;> exact quiet_here s σ
+
+theorem whileN_quiet {s : Script} {cond : St → St × CRes} {body : St → St × Res}
+    (hc : ∀ σ, Quiet s σ (cond σ).1.tr (cond σ).2.errEv)
+    (hb : ∀ σ, Quiet s σ (body σ).1.tr (body σ).2.errEv) :
+    ∀ (n : Nat) (σ : St), Quiet s σ (whileN cond body n σ).1.tr (whileN cond body n σ).2.errEv := by
+  intro n
+  induction n with
+  | zero => intro σ; exact quiet_here s σ
+  | succ n ih =>
+    intro σ
+    simp only [whileN]
+    have h1 := hc σ
+    cases hx : cond σ with
+    | mk σ1 v =>
+      rw [hx] at h1
+      cases v with
+      | err ph id => exact h1
+      | val b =>
+        cases b
+        · exact h1
+        · exact quiet_trans h1 (andThen_quiet (hb σ1) ih)
+
+theorem srun_quiet (s : Script) (f : Nat) : ∀ (p : Stmt) (σ : St),
+    Quiet s σ (srun s f p σ).1.tr (srun s f p σ).2.errEv
+  | .skip, σ => quiet_here s σ
+  | .atom o, σ => opRun_quiet s o σ
+  | .seq a b, σ => by simp only [srun]; exact andThen_quiet (srun_quiet s f a σ) (srun_quiet s f b)
+  | .loop c b, σ => by simp only [srun]; exact whileN_quiet (condEval_quiet s c) (srun_quiet s f b) f σ
+  | .ite c t e, σ => by
+    simp only [srun]
+    have h1 := condEval_quiet s c σ
+    cases hx : condEval s c σ with
+    | mk σ1 v =>
+      rw [hx] at h1
+      cases v with
+      | err ph id => exact h1
+      | val b => cases b <;> simp only <;> exact quiet_trans h1 (srun_quiet s f _ σ1)
+  | .inScope b, σ => by
+    simp only [srun]
+    have := srun_quiet s f b (push σ)
+    exact this
+
+
+/-! ### Lock-step with the fault-free script, second version: the divergence is a fired fault -/
+
+/-- `x` stopped with the error `(ph, id)` at an event where a scripted fault fired. -/
+def FaultStop (s : Script) (tr : List Ev) (oe : Option Ev) : Prop :=
+  ∃ e old, oe = some e ∧ tr = e :: old ∧ s.faulty e (old.count e) = true
+
+/-- Either the two runs are identical, or the first stopped at a fired fault at a point the
+second went through. -/
+def Sim2 (s : Script) (xtr : List Ev) (xe : Option Ev) (same : Prop) (ytr : List Ev) : Prop :=
+  same ∨ (FaultStop s xtr xe ∧ xtr <:+ ytr)
+
+abbrev SimR (s : Script) (x y : St × Res) : Prop := Sim2 s x.1.tr x.2.errEv (x = y) y.1.tr
+abbrev SimC (s : Script) (x y : St × CRes) : Prop := Sim2 s x.1.tr x.2.errEv (x = y) y.1.tr
+
+theorem evalLeaf_sim2 (s : Script) (id : Nat) (σ : St) : SimC s (evalLeaf s id σ) (evalLeaf s.noFaults id σ) := by
+  simp only [SimC, Sim2, evalLeaf, noFaults_faulty, noFaults_value]
+  split
+  · rename_i hf
+    right; exact ⟨⟨_, σ.tr, rfl, rfl, hf⟩, List.suffix_refl _⟩
+  · left; rfl
+
+/-- Propagation: an outer computation that returns the inner error unchanged while the fault-free
+side only extends its trace. -/
+theorem sim2_keep {s : Script} {xtr ytr ytr' : List Ev} {xe : Option Ev} {P : Prop}
+    (h : FaultStop s xtr xe ∧ xtr <:+ ytr) (hy : ytr <:+ ytr') : Sim2 s xtr xe P ytr' :=
+  Or.inr ⟨h.1, h.2.trans hy⟩
+
+theorem faultStop_err {s : Script} {tr : List Ev} {oe : Option Ev} (h : FaultStop s tr oe) : ∃ e, oe = some e := by
+  obtain ⟨e, _, h, _⟩ := h; exact ⟨e, h⟩
+
+theorem cres_err_of {v : CRes} {e : Ev} (h : v.errEv = some e) : v = .err e.1 e.2 := by
+  cases v <;> simp [CRes.errEv] at h; subst h; rfl
+theorem res_err_of {v : Res} {e : Ev} (h : v.errEv = some e) : v = .err e.1 e.2 := by
+  cases v <;> simp [Res.errEv] at h; subst h; rfl
+
+mutual
+  theorem condEval_sim2 (s : Script) : ∀ (c : Cond) (σ : St), SimC s (condEval s c σ) (condEval s.noFaults c σ)
+    | .leaf id, σ => by simp only [condEval]; exact evalLeaf_sim2 s id σ
+    | .all cs, σ => by simp only [condEval]; exact evalAll_sim2 s cs σ
+    | .any cs, σ => by simp only [condEval]; exact evalAny_sim2 s cs σ
+    | .not c, σ => by
+      simp only [condEval]
+      rcases condEval_sim2 s c σ with h | h
+      · rw [h]; left; rfl
+      · obtain ⟨e, he⟩ := faultStop_err h.1
+        cases hx : condEval s c σ with
+        | mk σx vx =>
+          rw [hx] at h he; simp only at h he
+          have := cres_err_of he; subst this
+          cases hy : condEval s.noFaults c σ with
+          | mk σy vy => rw [hy] at h; cases vy <;> exact Or.inr h
+  theorem evalAll_sim2 (s : Script) : ∀ (cs : Conds) (σ : St), SimC s (evalAll s cs σ) (evalAll s.noFaults cs σ)
+    | .nil, σ => Or.inl rfl
+    | .cons c cs, σ => by
+      simp only [evalAll]
+      rcases condEval_sim2 s c σ with h | h
+      · rw [h]
+        cases hy : condEval s.noFaults c σ with
+        | mk σ1 v =>
+          cases v with
+          | err ph id => left; rfl
+          | val b =>
+            simp only
+            rcases evalAll_sim2 s cs σ1 with h2 | h2
+            · rw [h2]; left; rfl
+            · obtain ⟨e, he⟩ := faultStop_err h2.1
+              cases hx : evalAll s cs σ1 with
+              | mk σx vx =>
+                rw [hx] at h2 he; simp only at h2 he
+                have := cres_err_of he; subst this
+                cases hy2 : evalAll s.noFaults cs σ1 with
+                | mk σy vy => rw [hy2] at h2; cases vy <;> exact Or.inr h2
+      · obtain ⟨e, he⟩ := faultStop_err h.1
+        cases hx : condEval s c σ with
+        | mk σx vx =>
+          rw [hx] at h he; simp only at h he
+          have := cres_err_of he; subst this
+          cases hy : condEval s.noFaults c σ with
+          | mk σy vy =>
+            rw [hy] at h
+            cases vy with
+            | err _ _ => exact Or.inr h
+            | val b =>
+              simp only
+              have := evalAll_tr s.noFaults cs σy
+              cases hy2 : evalAll s.noFaults cs σy with
+              | mk σz vz => rw [hy2] at this; cases vz <;> exact sim2_keep h this
+  theorem evalAny_sim2 (s : Script) : ∀ (cs : Conds) (σ : St), SimC s (evalAny s cs σ) (evalAny s.noFaults cs σ)
+    | .nil, σ => Or.inl rfl
+    | .cons c cs, σ => by
+      simp only [evalAny]
+      rcases condEval_sim2 s c σ with h | h
+      · rw [h]
+        cases hy : condEval s.noFaults c σ with
+        | mk σ1 v =>
+          cases v with
+          | err ph id => left; rfl
+          | val b =>
+            simp only
+            rcases evalAny_sim2 s cs σ1 with h2 | h2
+            · rw [h2]; left; rfl
+            · obtain ⟨e, he⟩ := faultStop_err h2.1
+              cases hx : evalAny s cs σ1 with
+              | mk σx vx =>
+                rw [hx] at h2 he; simp only at h2 he
+                have := cres_err_of he; subst this
+                cases hy2 : evalAny s.noFaults cs σ1 with
+                | mk σy vy => rw [hy2] at h2; cases vy <;> exact Or.inr h2
+      · obtain ⟨e, he⟩ := faultStop_err h.1
+        cases hx : condEval s c σ with
+        | mk σx vx =>
+          rw [hx] at h he; simp only at h he
+          have := cres_err_of he; subst this
+          cases hy : condEval s.noFaults c σ with
+          | mk σy vy =>
+            rw [hy] at h
+            cases vy with
+            | err _ _ => exact Or.inr h
+            | val b =>
+              simp only
+              have := evalAny_tr s.noFaults cs σy
+              cases hy2 : evalAny s.noFaults cs σy with
+              | mk σz vz => rw [hy2] at this; cases vz <;> exact sim2_keep h this
+end
+
+theorem sim2_andThen {s : Script} {x y : St × Res} {k k0 : St → St × Res} (h : SimR s x y)
+    (hk : ∀ σ, SimR s (k σ) (k0 σ)) (hm : ∀ σ, σ.tr <:+ (k0 σ).1.tr) :
+    SimR s (andThen x k) (andThen y k0) := by
+  rcases h with h | h
+  · subst h
+    unfold andThen
+    split
+    · exact hk _
+    · left; rfl
+  · obtain ⟨e, he⟩ := faultStop_err h.1
+    obtain ⟨σx, rx⟩ := x
+    simp only at he h
+    have := res_err_of he; subst this
+    simp only [andThen]
+    obtain ⟨σy, ry⟩ := y
+    cases ry <;> simp only <;> first | exact Or.inr h | exact sim2_keep h (hm _)
+
+theorem opRun_sim2 (s : Script) (o : Op) (σ : St) : SimR s (opRun s o σ) (opRun s.noFaults o σ) := by
+  cases o with
+  | prim ev acts =>
+    simp only [SimR, Sim2, opRun, step, noFaults_faulty]
+    split
+    · rename_i hf
+      right
+      refine ⟨⟨ev, σ.tr, rfl, rfl, hf⟩, ?_⟩
+      simp only [Bool.false_eq_true, if_false]
+      split <;> exact List.suffix_refl _
+    · left; rfl
+  | counter0 => left; rfl
+  | bump => left; rfl
+
+theorem whileN_sim2 {s : Script} {cond cond0 : St → St × CRes} {body body0 : St → St × Res}
+    (hc : ∀ σ, SimC s (cond σ) (cond0 σ)) (hb : ∀ σ, SimR s (body σ) (body0 σ))
+    (hc0 : ∀ σ, σ.tr <:+ (cond0 σ).1.tr) (hb0 : ∀ σ, σ.tr <:+ (body0 σ).1.tr) :
+    ∀ (n : Nat) (σ : St), SimR s (whileN cond body n σ) (whileN cond0 body0 n σ) := by
+  intro n
+  induction n with
+  | zero => intro σ; left; rfl
+  | succ n ih =>
+    intro σ
+    simp only [whileN]
+    rcases hc σ with h | h
+    · rw [h]
+      cases hy : cond0 σ with
+      | mk σ1 v =>
+        cases v with
+        | err ph id => left; rfl
+        | val b =>
+          cases b
+          · left; rfl
+          · exact sim2_andThen (hb σ1) ih (whileN_mono hc0 hb0 n)
+    · obtain ⟨e, he⟩ := faultStop_err h.1
+      cases hx : cond σ with
+      | mk σx vx =>
+        rw [hx] at h he; simp only at h he
+        have := cres_err_of he; subst this
+        simp only
+        cases hy : cond0 σ with
+        | mk σy vy =>
+          rw [hy] at h
+          cases vy with
+          | err _ _ => exact Or.inr h
+          | val b =>
+            cases b
+            · exact Or.inr h
+            · simp only
+              have h1 : σy.tr <:+ (andThen (body0 σy) (whileN cond0 body0 n)).1.tr :=
+                andThen_pres (P := fun σ σ' => σ.tr <:+ σ'.tr) (fun _ _ _ h1 h2 => h1.trans h2)
+                  (hb0 σy) (whileN_mono hc0 hb0 n)
+              exact sim2_keep h h1
+
+theorem srun_sim2 (s : Script) (f : Nat) : ∀ (p : Stmt) (σ : St),
+    SimR s (srun s f p σ) (srun s.noFaults f p σ)
+  | .skip, σ => Or.inl rfl
+  | .atom o, σ => by simp only [srun]; exact opRun_sim2 s o σ
+  | .seq a b, σ => by
+    simp only [srun]
+    exact sim2_andThen (srun_sim2 s f a σ) (srun_sim2 s f b) (srun_trace s.noFaults f b)
+  | .loop c b, σ => by
+    simp only [srun]
+    exact whileN_sim2 (condEval_sim2 s c) (srun_sim2 s f b) (condEval_tr s.noFaults c)
+      (srun_trace s.noFaults f b) f σ
+  | .ite c t e, σ => by
+    simp only [srun]
+    rcases condEval_sim2 s c σ with h | h
+    · rw [h]
+      cases hy : condEval s.noFaults c σ with
+      | mk σ1 v =>
+        cases v with
+        | err ph id => left; rfl
+        | val b =>
+          cases b
+          · exact srun_sim2 s f e σ1
+          · exact srun_sim2 s f t σ1
+    · obtain ⟨ev, he⟩ := faultStop_err h.1
+      cases hx : condEval s c σ with
+      | mk σx vx =>
+        rw [hx] at h he; simp only at h he
+        have := cres_err_of he; subst this
+        simp only
+        cases hy : condEval s.noFaults c σ with
+        | mk σy vy =>
+          rw [hy] at h
+          cases vy with
+          | err _ _ => exact Or.inr h
+          | val b =>
+            cases b <;> simp only
+            · exact sim2_keep h (srun_trace s.noFaults f e σy)
+            · exact sim2_keep h (srun_trace s.noFaults f t σy)
+  | .inScope b, σ => by
+    simp only [srun]
+    rcases srun_sim2 s f b (push σ) with h | h
+    · rw [h]; left; rfl
+    · exact Or.inr h
+
+
+theorem clean_iff_quiet (s : Script) (b t : List Ev) : Clean s b t ↔ s.quietAfter b.reverse t.reverse := by
+  constructor
+  · intro h pre e post heq hb
+    have ht : t = post.reverse ++ e :: pre.reverse := by
+      have := congrArg List.reverse heq
+      simpa using this
+    have hb' : b <:+ pre.reverse := by
+      have := List.reverse_suffix.mpr hb
+      simpa using this
+    have := h post.reverse e pre.reverse ht hb'
+    simpa using this
+  · intro h newer e old heq hb
+    have ht : t.reverse = old.reverse ++ e :: newer.reverse := by rw [heq]; simp
+    have hb' : b.reverse <+: old.reverse := List.reverse_prefix.mpr hb
+    have := h old.reverse e newer.reverse ht hb'
+    simpa using this
+
+/-- The complete account of scripted faults, on the structured program (traces newest first). -/
+theorem srun_fault_returned (s : Script) (f : Nat) (p : Stmt) (σ : St) :
+    (∀ newer e old, (srun s.noFaults f p σ).1.tr = newer ++ e :: old → σ.tr <:+ old → Clean s σ.tr old →
+        s.faulty e (old.count e) = true →
+        (srun s f p σ).2 = .err e.1 e.2 ∧ (srun s f p σ).1.tr = e :: old) ∧
+    (Clean s σ.tr (srun s.noFaults f p σ).1.tr → srun s f p σ = srun s.noFaults f p σ) := by
+  have hS := srun_sim2 s f p σ
+  have hQ := srun_quiet s f p σ
+  generalize srun s f p σ = x at hS hQ
+  generalize srun s.noFaults f p σ = y at hS
+  constructor
+  · intro newer e old hy hb hc hf
+    have hsuf : e :: old <:+ y.1.tr := ⟨newer, hy.symm⟩
+    rcases hS with h | ⟨⟨e', old', he', htr', hf'⟩, hxy⟩
+    · subst h
+      cases hxe : x.2.errEv with
+      | none =>
+        rw [hxe] at hQ
+        have := hQ.2 newer e old hy hb
+        rw [this] at hf; cases hf
+      | some e' =>
+        rw [hxe] at hQ
+        obtain ⟨old', htr', hb', hc'⟩ := hQ
+        by_cases hf' : s.faulty e' (old'.count e') = true
+        · obtain ⟨rfl, rfl⟩ := first_fault_unique hsuf (by rw [htr']; exact List.suffix_refl _) hb hb' hc hc' hf hf'
+          exact ⟨res_err_of hxe, htr'⟩
+        · have hcl : Clean s σ.tr x.1.tr := by
+            rw [htr']; exact clean_cons hc' (by simpa using hf')
+          have := hcl newer e old hy hb
+          rw [this] at hf; cases hf
+    · rw [he'] at hQ
+      obtain ⟨old'', htr'', hb', hc'⟩ := hQ
+      have : old'' = old' := by rw [htr'] at htr''; injection htr'' with _ h; exact h.symm
+      subst this
+      obtain ⟨rfl, rfl⟩ := first_fault_unique hsuf (by rw [← htr']; exact hxy) hb hb' hc hc' hf hf'
+      exact ⟨res_err_of he', htr'⟩
+  · intro hcl
+    rcases hS with h | ⟨⟨e', old', he', htr', hf'⟩, hxy⟩
+    · exact h
+    · rw [he'] at hQ
+      obtain ⟨old'', htr'', hb', _⟩ := hQ
+      have : old'' = old' := by rw [htr'] at htr''; injection htr'' with _ h; exact h.symm
+      subst this
+      obtain ⟨m, hm⟩ := hxy
+      have := hcl m e' old'' (by rw [← hm, htr']) hb'
+      rw [this] at hf'; cases hf'
+
+
+/-! ### Per-key frame rules -/
+
+/-- Not an `insert` of `k`. -/
+def Act.noInsOf (k : Nat) (a : Act) : Bool := !(a.isIns && a.key == k)
+/-- Neither `insert`, `set_value` nor `remove` of `k` (requirements are fine). -/
+def Act.leaves (k : Nat) (a : Act) : Bool := !((a.isIns || a.isWrite) && a.key == k)
+
+theorem Scope.has_put (m : Scope) (k v k' : Nat) : (m.put k v).has k' = (k == k' || m.has k') := by
+  rw [Scope.has_iff_get, Scope.has_iff_get, Scope.get_put]
+  by_cases h : k = k' <;> simp [h]
+
+theorem Scope.has_erase (m : Scope) (k k' : Nat) : (m.erase k).has k' = (k != k' && m.has k') := by
+  rw [Scope.has_iff_get, Scope.has_iff_get, Scope.get_erase]
+  by_cases h : k = k' <;> simp [h]
+
+/-- The innermost scope has no `k`. -/
+def HeadLacks (k : Nat) (b : Reg) : Prop := ∀ m t, b = m :: t → m.has k = false
+
+theorem stable_headLacks (k : Nat) : Stable (HeadLacks k) (Act.noInsOf k) true (k != 0) where
+  setv ph k' v b _ hq := by
+    intro m t h
+    cases b with
+    | nil => simp [Reg.setv] at h
+    | cons m0 t0 =>
+      have h0 := hq m0 t0 rfl
+      simp only [Reg.setv] at h
+      split at h
+      · rename_i hk'
+        injection h with h1 _; subst h1
+        rw [Scope.has_put]
+        have : k' ≠ k := by intro e; subst e; rw [h0] at hk'; cases hk'
+        simp [this, h0]
+      · injection h with h1 _; subst h1; exact h0
+  remove ph k' b _ hq := by
+    intro m t h
+    cases b with
+    | nil => simp [Reg.remove] at h
+    | cons m0 t0 =>
+      have h0 := hq m0 t0 rfl
+      simp only [Reg.remove] at h
+      split at h
+      · injection h with h1 _; subst h1; rw [Scope.has_erase]; simp [h0]
+      · injection h with h1 _; subst h1; exact h0
+  incr _ b b' hi hq := by
+    intro m t h
+    cases b with
+    | nil => simp [Reg.incr] at hi
+    | cons m0 t0 =>
+      have h0 := hq m0 t0 rfl
+      simp only [Reg.incr] at hi
+      split at hi
+      · rename_i v hv
+        injection hi with hi; rw [← hi] at h; injection h with h1 _; subst h1
+        rw [Scope.has_put]
+        have : 0 ≠ k := by
+          intro e; subst e
+          rw [Scope.has_iff_get, hv] at h0; cases h0
+        simp [this, h0]
+      · split at hi
+        · injection hi with hi; rw [← hi] at h; injection h with h1 _; subst h1; exact h0
+        · cases hi
+  insert _ ph k' v b ha hq := by
+    intro m t h
+    cases b with
+    | nil => simp [Reg.insert] at h
+    | cons m0 t0 =>
+      have h0 := hq m0 t0 rfl
+      simp only [Reg.insert] at h
+      injection h with h1 _; subst h1
+      rw [Scope.has_put]
+      have : k' ≠ k := by simpa [Act.noInsOf, Act.isIns, Act.key] using ha
+      simp [this, h0]
+  ctr0 _ hL b hq := by
+    intro m t h
+    cases b with
+    | nil => simp [Reg.insert] at h
+    | cons m0 t0 =>
+      have h0 := hq m0 t0 rfl
+      simp only [Reg.insert] at h
+      injection h with h1 _; subst h1
+      rw [Scope.has_put]
+      have : 0 ≠ k := by intro e; subst e; simp at hL
+      simp [this, h0]
+
+theorem stable_lookup (k : Nat) (x : Option Nat) : Stable (fun b => b.get? k = x) (Act.leaves k) true (k != 0) where
+  setv ph k' v b ha hq := by
+    have h : k' ≠ k := by simpa [Act.leaves, Act.isIns, Act.isWrite, Act.key] using ha
+    rw [Reg.get_setv_ne _ _ _ _ h]; exact hq
+  remove ph k' b ha hq := by
+    have h : k' ≠ k := by simpa [Act.leaves, Act.isIns, Act.isWrite, Act.key] using ha
+    rw [Reg.get_remove_ne _ _ _ h]; exact hq
+  incr hL b b' hi hq := by
+    have hk : k ≠ 0 := by simpa using hL
+    rw [Reg.get_incr _ _ k hi]; simp [hk, hq]
+  insert _ ph k' v b ha hq := by
+    have h : k' ≠ k := by simpa [Act.leaves, Act.isIns, Act.isWrite, Act.key] using ha
+    by_cases hb : b = []
+    · subst hb; exact hq
+    · rw [Reg.get_insert _ _ _ _ hb]; simp [h, hq]
+  ctr0 _ hL b hq := by
+    have hk : 0 ≠ k := by intro e; subst e; simp at hL
+    by_cases hb : b = []
+    · subst hb; exact hq
+    · rw [Reg.get_insert _ _ _ _ hb]; simp [hk, hq]
+
+/-- The innermost scope has `k`, and below it `k` resolves to `x`. -/
+def Shadowed (k : Nat) (x : Option Nat) (b : Reg) : Prop := ∃ m t, b = m :: t ∧ m.has k = true ∧ Reg.get? t k = x
+
+theorem stable_shadowed (k : Nat) (x : Option Nat) : Stable (Shadowed k x) (Act.keeps k) true true where
+  setv ph k' v b _ hq := by
+    obtain ⟨m, t, rfl, hm, ht⟩ := hq
+    simp only [Reg.setv]
+    split
+    · exact ⟨_, t, rfl, by rw [Scope.has_put]; simp [hm], ht⟩
+    · rename_i hk'
+      have : k' ≠ k := by intro e; subst e; exact hk' hm
+      exact ⟨m, _, rfl, hm, by rw [Reg.get_setv_ne _ _ _ _ this]; exact ht⟩
+  remove ph k' b ha hq := by
+    obtain ⟨m, t, rfl, hm, ht⟩ := hq
+    have hne : k' ≠ k := by simpa [Act.keeps, Act.isRem, Act.key] using ha
+    simp only [Reg.remove]
+    split
+    · exact ⟨_, t, rfl, by rw [Scope.has_erase]; simp [hm, hne], ht⟩
+    · exact ⟨m, _, rfl, hm, by rw [Reg.get_remove_ne _ _ _ hne]; exact ht⟩
+  incr _ b b' hi hq := by
+    obtain ⟨m, t, rfl, hm, ht⟩ := hq
+    simp only [Reg.incr] at hi
+    split at hi
+    · injection hi with hi; subst hi
+      exact ⟨_, t, rfl, by rw [Scope.has_put]; simp [hm], ht⟩
+    · rename_i hnone
+      split at hi
+      · rename_i r' hr'
+        injection hi with hi; subst hi
+        have hk : k ≠ 0 := by
+          intro e; subst e; rw [Scope.has_iff_get, hnone] at hm; cases hm
+        exact ⟨m, r', rfl, hm, by rw [Reg.get_incr _ _ k hr']; simp [hk, ht]⟩
+      · cases hi
+  insert _ ph k' v b _ hq := by
+    obtain ⟨m, t, rfl, hm, ht⟩ := hq
+    exact ⟨_, t, rfl, by rw [Scope.has_put]; simp [hm], ht⟩
+  ctr0 _ _ b hq := by
+    obtain ⟨m, t, rfl, hm, ht⟩ := hq
+    exact ⟨_, t, rfl, by rw [Scope.has_put]; simp [hm], ht⟩
+
+/-- Whatever the body of a scope does, a state type it never inserts (at any level) is seen by the
+caller afterwards exactly as the body saw it at its end. -/
+theorem scope_exports (s : Script) (f : Nat) (b : Comp) (k : Nat)
+    (hb : b.sat (Act.noInsOf k) (fun _ => true) (k != 0) = true) (σ : St) :
+    (exec s f (.scope b) σ).1.reg.get? k = (srun s f (scopeBody b) (push σ)).1.reg.get? k := by
+  rw [exec_scope]
+  have hq := srun_frame_top s f (stable_headLacks k) (scopeBody b) (scopeBody_all _ _ _ b hb) (push σ)
+    (by intro m t h; simp only [push] at h; injection h with h1 _; subst h1; rfl)
+  have hlen := srun_depth s f (scopeBody b) (push σ)
+  cases hr : (srun s f (scopeBody b) (push σ)).1.reg with
+  | nil => rw [hr] at hlen; simp [push] at hlen
+  | cons m t =>
+    have hm := hq m t hr
+    simp only [pop, hr, List.tail_cons, Reg.get?, hm]
+    simp
+
+/-- Once the body's `init` has put a `k` into the child scope and no leaf removes `k`, the caller's
+`k` is out of reach: whatever is set afterwards, the caller finds what `init` left outside. -/
+theorem scope_shadow (s : Script) (f : Nat) (b : Comp) (k : Nat)
+    (hb : b.sat (Act.keeps k) (fun _ => true) true = true) (σ σ1 : St) (m : Scope) (t : Reg)
+    (hi : initC s b (push σ) = (σ1, .ok)) (hr : σ1.reg = m :: t) (hm : m.has k = true) :
+    (exec s f (.scope b) σ).1.reg.get? k = Reg.get? t k := by
+  rw [exec_scope]
+  have hsplit : srun s f (scopeBody b) (push σ) = srun s f (.seq (reqProg b) (execProg b)) σ1 := by
+    show andThen (srun s f (initProg b) (push σ)) (srun s f (.seq (reqProg b) (execProg b))) = _
+    rw [← initC_eq s f b, hi]; rfl
+  rw [hsplit]
+  have hall : (Stmt.seq (reqProg b) (execProg b)).all (Op.sat (Act.keeps k) true) (fun _ => true) = true := by
+    simp [Stmt.all, reqProg_all _ _ _ b hb, execProg_all _ _ _ b hb]
+  have hq := srun_frame_top s f (stable_shadowed k (Reg.get? t k)) _ hall σ1 ⟨m, t, hr, hm, rfl⟩
+  obtain ⟨m', t', hr', _, ht'⟩ := hq
+  simp only [pop, hr', List.tail_cons]
+  exact ht'
 
 
 /-! ### A concrete tree, script and state for the non-vacuity examples in `Props/C03.lean` -/
